@@ -56,13 +56,17 @@ PROPS = {
         "generators": [("c09", 3000, 60000)],
         "modules": ["S2.Codec.Prim", "S2.Codec.Points", "S2.Codec.Types", "S2.STUV", "S2.F64"],
         "rule": "values of all nine encodable types built through the public constructors: points/caps/rects with special floats "
-                "(+-0, subnormal, huge, inf, NaN), arbitrary 64-bit cell ids, valid cells, cell unions (also 999999/1000000/1000001 cells), "
+                "(+-0, subnormal, huge, inf, NaN), arbitrary 64-bit cell ids, valid cells, cell unions (also 999999/1000000/1000001 cells: the last one must be "
+                "refused by the encoder), axis-point triangles with every zero-sign pattern, "
                 "polylines, loops and polygons of 1-5 loops (shells, holes, second component) whose vertices are cell centres of one level, "
                 "of mixed levels, partly snapped (10-90 %), unsnapped; rectangles of cell centres in (i,j) space at the corners/edges/centre "
                 "of every face (extreme si/ti), 60-71 vertices around the 64-vertex bound threshold, radii from 1e-6 to 1.4 rad (face changes); "
                 "raw compressed point lists at arbitrary levels; primitives (uvarint incl. overflow forms, zig-zag, interleave, coder streams, "
                 "(si,ti)->(pi,qi) at every level). non-trivial = a polygon/loop/polyline/point-list line with at least 3 vertices; "
-                "distinct = distinct (op, arguments). The share of compressed vs lossless polygon encodings (first byte 04 / 01) is reported.",
+                "distinct = distinct (op, arguments). The share of compressed vs lossless polygon encodings (first byte 04 / 01) is reported. "
+                "For every loop/polygon line the harness also compares the answers of the original and the decoded Go value "
+                "(NumEdges/Edge/Chain/ReferencePoint/loop structure/Area bit-exact, ContainsPoint on axis points, vertices, edge midpoints, "
+                "1e-9-displaced vertices and vertex sums); a difference is a propfail.",
         "nontrivial": lambda l: l.split(" ", 1)[0] in ("encpolygon", "encloop", "encloopof", "encpolyline", "ptsc") and l.count(";") >= 2,
         "trusted_base": ["Loop.initBound / polygon bound recomputed by the compressed decoders (RectBounder, libm) are not modelled: the model "
                          "carries `none` there and the property does not speak about bounds",
